@@ -103,6 +103,9 @@ func indentObject(
 	prefix []byte,
 	indentBytes []byte,
 	escape bool) ([]byte, int64, error) {
+	if indentNum+1 > maxNestingDepth {
+		return nil, 0, errExceededMaxDepth(cursor)
+	}
 	if src[cursor] == '{' {
 		dst = append(dst, '{')
 	} else {
@@ -167,6 +170,9 @@ func indentArray(
 	prefix []byte,
 	indentBytes []byte,
 	escape bool) ([]byte, int64, error) {
+	if indentNum+1 > maxNestingDepth {
+		return nil, 0, errExceededMaxDepth(cursor)
+	}
 	if src[cursor] == '[' {
 		dst = append(dst, '[')
 	} else {
